@@ -8,6 +8,7 @@ import (
 	"context"
 	"errors"
 	"fmt"
+	"sort"
 	"strings"
 	"time"
 
@@ -116,8 +117,10 @@ func (p *P) input(g gen.G) string {
 		return g.Stmt(2)
 	case 4:
 		return g.Multi()
-	case 5, 6:
+	case 5:
 		return gen.Corpus()[g.S.Intn(len(gen.Corpus()), "corp")]
+	case 6:
+		return g.Feature()
 	case 7:
 		return g.Stmt(3)
 	case 8:
@@ -125,7 +128,7 @@ func (p *P) input(g gen.G) string {
 			// one long token: work (and any polling) inside a comment, string or quoted body
 			return gen.LongToken(g.S.Intn(5, "ltkind"), []int{600, 4100, 4100, 9000, 20000}[g.S.Intn(5, "ltsize")])
 		}
-		return gen.Long([]int{90, 101, 199, 201, 450, 1200, 2500}[g.S.Intn(7, "long")])
+		return gen.Long([]int{90, 101, 199, 201, 450, 1200, 2500, 4200, 9000}[g.S.Intn(9, "long")])
 	default:
 		return g.FaultLike()
 	}
@@ -279,6 +282,7 @@ func (p *P) Run(src *tape.Source, trace bool) *core.Result {
 
 	// --- uncancelled run: P polls; must equal the context-free call
 	never := simctx.Never()
+	never.RecordSites = true
 	o0 := call(never)
 	P := never.Polls
 	of := free()
@@ -364,7 +368,29 @@ func (p *P) Run(src *tape.Source, trace bool) *core.Result {
 		for k := P - 50; k < P; k++ {
 			ks = append(ks, k)
 		}
+		// every poll SITE of the library (code location of the Err() call) at its
+		// first two and its last occurrence: a rarely reached poll - one per few
+		// thousand tokens, say - is a cancellation point like any other
+		first, second, last := map[uintptr]int{}, map[uintptr]int{}, map[uintptr]int{}
+		for k, site := range never.Sites {
+			if _, ok := first[site]; !ok {
+				first[site] = k
+			} else if _, ok := second[site]; !ok {
+				second[site] = k
+			}
+			last[site] = k
+		}
+		for _, m := range []map[uintptr]int{first, second, last} {
+			for _, k := range m {
+				if k > 50 && k < P-50 {
+					ks = append(ks, k)
+				}
+			}
+		}
+		sort.Ints(ks)
+		ks = dedupInts(ks)
 		r.Probes["P>400-sampled"]++
+		r.Probes[fmt.Sprintf("poll-sites-in-a-sampled-run=%d", len(first))]++
 	}
 	nFull := 0
 	fullAt := map[int]bool{}
@@ -548,4 +574,14 @@ func clipS(s string, n int) string {
 		return s[:n] + "…"
 	}
 	return s
+}
+
+func dedupInts(a []int) []int {
+	out := a[:0]
+	for i, v := range a {
+		if i == 0 || v != a[i-1] {
+			out = append(out, v)
+		}
+	}
+	return out
 }
